@@ -94,6 +94,19 @@ PRIMITIVE_MODULES = ("argon2::", "blake2b::", "poly1305::", "sha512::", "siphash
                      "rng::", "error::", "types::", "protected::", "bytes_serde::")
 
 
+def _subst_consts(o, cbind):
+    """replace `const N` operands of a generic body by the literal bound at the call site (in place)"""
+    if isinstance(o, dict):
+        if o.get("k") == "const" and o.get("tyconst") in cbind and "v" not in o:
+            o["v"] = cbind[o["tyconst"]]
+            return
+        for v in o.values():
+            _subst_consts(v, cbind)
+    elif isinstance(o, list):
+        for v in o:
+            _subst_consts(v, cbind)
+
+
 def default_pick(prog, root, keep=(), cross=None):
     """Inline crate-local non-public callees (private and pub(crate) free functions / inherent or
     trait methods) defined in the same source file as the root that resolve uniquely, except the ones
@@ -399,6 +412,8 @@ def _fn_item_of(locals_, blocks, o, depth=0):
         if st is None:
             return None
         rv = st["rv"]
+        if rv["k"] == "cast":        # fn item reified into a function pointer
+            return _fn_item_of(locals_, blocks, rv["x"], depth + 1)
         if rv["k"] == "use":
             if rv["x"].get("k") in ("copy", "move") and [pe for pe in rv["x"]["p"] if pe != "deref"]:
                 cap = _captured_operand(locals_, blocks, rv["x"])
@@ -483,7 +498,7 @@ def inline(prog, f, pick=None, keep=(), depth=MAX_DEPTH, cross=None, value_combi
         if t_["k"] != "call":
             continue
         fj_ = t_["f"]
-        if fj_.get("path") in COMBINATORS or fj_.get("path") in FN_CALLS:
+        if fj_.get("path") in COMBINATORS or fj_.get("path") in FN_CALLS or "indirect" in fj_:
             maybe = True
             break
         key_ = fj_.get("r_key") if ("r_key" in fj_ and fj_.get("r_local")) else (fj_.get("key") if fj_.get("local") and "r_key" not in fj_ else None)
@@ -508,6 +523,16 @@ def inline(prog, f, pick=None, keep=(), depth=MAX_DEPTH, cross=None, value_combi
         if t["k"] != "call" or len(blocks) > MAX_BLOCKS:
             continue
         fj = t["f"]
+        if "indirect" in fj and len(stack_of[b]) <= depth:
+            # call through a function pointer that is a known function item of this view
+            fi = _fn_item_of(locals_, blocks, fj["indirect"])
+            if fi is not None:
+                g0 = prog.by_key.get(fi["fn_key"])
+                tj = {"key": fi["fn_key"], "path": (g0.path if g0 is not None else fi["fn"].split("::<")[0]), "full": fi["fn"], "name": fi["fn"].split("::")[-1]}
+                if g0 is not None:
+                    tj["local"] = True
+                t["f"] = tj
+                fj = tj
         if fj.get("path") in FN_CALLS and len(t["args"]) == 2 and len(stack_of[b]) <= depth:
             # `f(a, b)` on a value that is a closure literal of this view (possibly handed through the
             # parameters of folded-in helpers): call the closure body directly
@@ -535,12 +560,37 @@ def inline(prog, f, pick=None, keep=(), depth=MAX_DEPTH, cross=None, value_combi
         if len(t["args"]) != g.argc:
             continue
         from .core import Call
-        if not fj.get("closure_call") and not pick(Call(f, b, t), g):
+        c_ = Call(f, b, t)
+        c_.ctx_locals = locals_
+        if not fj.get("closure_call") and not pick(c_, g):
             continue
         lo = len(locals_)
         bo = len(blocks)
         po = next_prom
-        locals_.extend(g.j["locals"])
+        # const generic arguments fixed at this call site (`split_array::<16>(..)`) become literals
+        cbind = {}
+        try:
+            for pn, (txt, sub) in (prog.bind_for(Call(f, b, t), g, {}) or {}).items():
+                if not sub and str(txt).isdigit():
+                    cbind[pn] = int(txt)
+        except Exception:
+            cbind = {}
+        if cbind:
+            glocals = []
+            for lt in g.j["locals"]:
+                tt = lt.get("t", "")
+                if any(("; %s]" % pn) in tt or ("<%s>" % pn) in tt for pn in cbind):
+                    lt = dict(lt)
+                    for pn, val in cbind.items():
+                        lt["t"] = lt["t"].replace("; %s]" % pn, "; %d]" % val).replace("<%s>" % pn, "<%d>" % val)
+                    if lt.get("k") == "array" and lt.get("n") in cbind:
+                        lt["n"] = str(cbind[lt["n"]])
+                    if isinstance(lt.get("inner"), dict) and lt["inner"].get("n") in cbind:
+                        lt["inner"] = dict(lt["inner"], n=str(cbind[lt["inner"]["n"]]), t=lt["inner"].get("t", "").replace("; %s]" % lt["inner"]["n"], "; %d]" % cbind[lt["inner"]["n"]]))
+                glocals.append(lt)
+            locals_.extend(glocals)
+        else:
+            locals_.extend(g.j["locals"])
         for nm in g.j.get("names", []):
             nm2 = copy.deepcopy(nm)
             _map_place(nm2["place"], lo)
@@ -552,6 +602,8 @@ def inline(prog, f, pick=None, keep=(), depth=MAX_DEPTH, cross=None, value_combi
             promoted.append(pj2)
             next_prom = max(next_prom, pj2["idx"] + 1)
         gblocks = copy.deepcopy(g.j["blocks"])
+        if cbind:
+            _subst_consts(gblocks, cbind)
         call_target = t.get("t")
         call_unwind = t.get("unwind")
         dest = t["dest"]
